@@ -1,12 +1,17 @@
 """C16 - pipeline property judged by spec/QuillContract.tla (flag ok16) through TLC trace validation (spec/TraceQuill.tla) of
 executions of the real frontend/backend recorded by harness/h_sys; scenario family in props/sysfam.py; implementation-shaped
 exploration in spec/Dispatch.tla (tools/dispmodel.py): exhaustive small-scope model of the level check and the per-sink dispatch
-loop, every transition exported as a behaviour, judged by the contract and replayed on the real code."""
-import os
-import sysfam, qsys, dispmodel
+loop, every transition exported as a behaviour, judged by the contract and replayed on the real code. Attaching a filter while the
+backend dispatches, at the granularity of the accesses of Sink::_new_filter: spec/FilterRA.tla with the protocol extracted from the
+code, replayed on the REAL backend thread (tools/filtermodel.py, harness/h_stop in fine-grained mode)."""
+import json, os
+import sysfam, qsys, dispmodel, filtermodel
 
 
 def run(ck):
+    filtermodel.run_for(ck)
+    if os.environ.get("VERIF_PART") == "filter":
+        return
     dispmodel.run_for(ck, "C16")
     if os.environ.get("VERIF_PART") == "model":      # analysis aid: the design-level part alone
         return
@@ -14,4 +19,7 @@ def run(ck):
 
 
 def replay(ck, path):
-    qsys.replay(path)
+    if json.loads(open(path).read())["replay"].get("harness") == "h_stop":
+        filtermodel.replay(path)
+    else:
+        qsys.replay(path)
